@@ -98,6 +98,12 @@ func stateDescriptio(s *Scanner, c byte) *jerr.JApiError {
 }
 
 func stateDescriptionTextBeginStarter(s *Scanner, c byte) *jerr.JApiError {
+	if IsNewLine(c) {
+		// The text doesn't begin with a line break: with CRLF line endings the LF which ends
+		// the keyword line would otherwise become the beginning of the text, and an error in
+		// the text would be reported on the keyword line.
+		return nil
+	}
 	s.found(TextBegin)
 	s.step = stateDescriptionTextBegin
 	return stateDescriptionTextBegin(s, c)
